@@ -16,6 +16,16 @@ def build_sysx():
     return out
 
 
+def build_sysxs():
+    d = os.path.join(BUILD, 'aux')
+    os.makedirs(d, exist_ok=True)
+    out = os.path.join(d, 'sysxs')
+    r = sh(['gcc', '-O1', '-g', '-Wall', os.path.join(NATIVE, 'sysxs.c'), '-o', out])
+    if r.returncode:
+        raise build.BuildError('sysxs: ' + r.stderr.decode()[:2000])
+    return out
+
+
 def build_h_one(variant='c03-ts-asan', san='asan', heaptrack=False):
     v = build.build_variant(variant, san=san)
     rec = build.build_shared('librec.so', [os.path.join(NATIVE, 'rec.c')])
